@@ -3,7 +3,6 @@ package main
 import (
 	"fmt"
 	"go/ast"
-	"go/token"
 	"go/types"
 )
 
@@ -269,170 +268,3 @@ func c01DepErrorKept(c *Check, a *Anchors) {
 	c.Floor("dep-error-kept", n, 1)
 }
 
-// sharedWait (C01 rule 4 / C06 rule 3): callers that find a deduplicated execution wait for it and observe its outcome.
-func sharedWait(c *Check, a *Anchors) {
-	c.Rule("shared-wait", "in the dedup function, on the branch where the key is already registered: (a) a blocking receive on the recorded execution's completion signal precedes every return; (b) the returned error is read from the recorded execution (never the constant nil); (c) on the registering branch the completion signal is raised only after the execute callback returned and its outcome was stored, and it is raised before every return")
-	fb := a.Dedup
-	c.Fn(fb)
-	info := fb.Info()
-	name := fnDisplay(fb)
-	// the found branch: if X, ok := e.executionHashes[h]; ok { ... }
-	var found *ast.IfStmt
-	var recVar *types.Var
-	inspectBody(fb.Body, func(n ast.Node) bool {
-		ifs, ok := n.(*ast.IfStmt)
-		if !ok || ifs.Init == nil || found != nil {
-			return true
-		}
-		as, ok := ifs.Init.(*ast.AssignStmt)
-		if !ok || len(as.Lhs) != 2 || len(as.Rhs) != 1 {
-			return true
-		}
-		ix, ok := ast.Unparen(as.Rhs[0]).(*ast.IndexExpr)
-		if !ok || !fieldSel(info, ix.X, PkgTask, "Executor", "executionHashes") {
-			return true
-		}
-		if okv := varOf(info, as.Lhs[1]); okv != nil && varOf(info, ifs.Cond) == okv {
-			found, recVar = ifs, varOf(info, as.Lhs[0])
-		}
-		return true
-	})
-	if found == nil || recVar == nil {
-		c.Errorf("shared-wait: the lookup branch `if x, ok := e.executionHashes[h]; ok` was not found in %s", name)
-		return
-	}
-	// execute callback parameter
-	var execParam *types.Var
-	for _, fld := range fb.Type.Params.List {
-		for _, id := range fld.Names {
-			if v, ok := info.Defs[id].(*types.Var); ok {
-				if _, isSig := v.Type().Underlying().(*types.Signature); isSig {
-					execParam = v
-				}
-			}
-		}
-	}
-	if execParam == nil {
-		c.Errorf("shared-wait: execute callback parameter not found in %s", name)
-		return
-	}
-	// the registered record: value stored into the map
-	var regVar *types.Var
-	var regStore *ast.AssignStmt
-	inspectBody(fb.Body, func(n ast.Node) bool {
-		if as, ok := n.(*ast.AssignStmt); ok && len(as.Lhs) == 1 && len(as.Rhs) == 1 {
-			if ix, ok := ast.Unparen(as.Lhs[0]).(*ast.IndexExpr); ok && fieldSel(info, ix.X, PkgTask, "Executor", "executionHashes") {
-				regVar, regStore = rootVar(info, as.Rhs[0]), as
-			}
-		}
-		return true
-	})
-	if regStore == nil {
-		c.Errorf("shared-wait: registering store into executionHashes not found in %s", name)
-		return
-	}
-	label := func(call *ast.CallExpr, obj types.Object) string {
-		if _, isVar := obj.(*types.Var); obj == nil || isVar {
-			if v := varOf(info, call.Fun); v != nil && v == execParam {
-				return "execute"
-			}
-			return ""
-		}
-		if isBuiltin(info, call, "close") && len(call.Args) == 1 && regVar != nil && rootVar(info, call.Args[0]) == regVar {
-			return "signal"
-		}
-		// cancel function of a context stored as the record (older shape)
-		return a.labelRun(info)(call, obj)
-	}
-	f := NewFlow(c.P, fb, label)
-	f.RecvLabel = func(x *ast.UnaryExpr) string {
-		if mentions(info, x.X, recVar) {
-			return "waited"
-		}
-		return ""
-	}
-	// fromrec:<var> — the variable was assigned from the recorded execution on every path
-	f.AssignHook = func(v *types.Var, rhs ast.Expr, st Facts) {
-		k := "fromrec:" + defPrefix(v)
-		delete(st, k)
-		if rhs == nil {
-			return
-		}
-		from := mentions(info, rhs, recVar)
-		ast.Inspect(rhs, func(n ast.Node) bool {
-			if id, ok := n.(*ast.Ident); ok {
-				if ov, ok := info.Uses[id].(*types.Var); ok && st.Has("fromrec:"+defPrefix(ov)) {
-					from = true
-				}
-			}
-			return true
-		})
-		if from {
-			st[k] = true
-		}
-	}
-	f.Run()
-	nFound, nReg := 0, 0
-	for i, r := range f.Returns {
-		st := f.At[r]
-		res := errResult(r)
-		if within(r, found.Body) {
-			nFound++
-			c.Decide(st.Has("called:waited"), "shared-wait", fmt.Sprintf("wait-before-return#%d@%s", nFound, name), r.Pos(),
-				"a receive on the recorded execution precedes this return on every path",
-				"a caller of an already registered execution can return without having waited for its completion (no receive on the recorded execution on every path to this return)")
-			dep := res != nil && !isNilLit(info, res) && mentions(info, res, recVar)
-			if v := varOf(info, res); v != nil && st.Has("fromrec:"+defPrefix(v)) {
-				dep = true
-			}
-			c.Decide(dep, "shared-wait", fmt.Sprintf("outcome-observed#%d@%s", nFound, name), r.Pos(),
-				"the returned error is read from the recorded execution",
-				fmt.Sprintf("the waiter returns %s, which does not depend on the recorded outcome of the real execution: a failed shared dependency looks successful to this caller", exprStr(res)))
-			continue
-		}
-		if r.Pos() > regStore.Pos() {
-			nReg++
-			ok := st.Has("called:signal") || st.Has("deferred:signal")
-			c.Decide(ok && st.Has("called:execute"), "shared-wait", fmt.Sprintf("signal-before-return#%d@%s", nReg, name), r.Pos(),
-				"the completion signal is raised (after execute) before the registering caller returns",
-				fmt.Sprintf("the registering caller can return without raising the completion signal after execute (waiters would block forever or be released early); must-facts: %s", st))
-		}
-		_ = i
-	}
-	if nFound == 0 {
-		c.Bad("shared-wait", "found-branch-returns@"+name, found.Pos(), "the found branch does not return: a caller that finds a registered execution would execute the task again")
-	}
-	// (c) signal only after execute returned and its outcome stored
-	nSig := 0
-	for call, l := range f.Labels {
-		if l != "signal" {
-			continue
-		}
-		nSig++
-		st := f.At[call]
-		stored := false
-		inspectBody(fb.Body, func(n ast.Node) bool {
-			if as, ok := n.(*ast.AssignStmt); ok && as.Pos() < call.Pos() && as.Pos() > regStore.Pos() {
-				for i, l := range as.Lhs {
-					if _, isSel := ast.Unparen(l).(*ast.SelectorExpr); isSel && regVar != nil && rootVar(info, l) == regVar {
-						rhs := as.Rhs[0]
-						if len(as.Rhs) == len(as.Lhs) {
-							rhs = as.Rhs[i]
-						}
-						if mentionsVia(info, fb.Body, rhs, execParam, 2) {
-							stored = true
-						}
-					}
-				}
-			}
-			return true
-		})
-		c.Decide(st.Has("called:execute") && stored, "shared-wait", "signal-after-execute@"+name, call.Pos(),
-			"close of the completion channel happens after execute returned and after its result was stored in the record",
-			fmt.Sprintf("the completion signal can be raised before the real execution finished or before its outcome is stored (execute returned on every path: %v, outcome stored before: %v)", st.Has("called:execute"), stored))
-	}
-	if nSig == 0 {
-		c.Bad("shared-wait", "signal-after-execute@"+name, regStore.Pos(), "no completion signal owned by the registered record is raised by the registering caller (the record's completion must not depend on a context that a parent can cancel early)")
-	}
-	_ = token.NoPos
-}
